@@ -308,22 +308,31 @@ func (c *Container) skip(n int) {
 
 // GetNextBlock returns the next block of data defined by a varint. Data MAY be copied and IS consumed.
 func (c *Container) GetNextBlock() ([]byte, error) {
-	blockSize, err := c.GetNextN64()
+	// Only look at the length prefix: it is consumed together with the block,
+	// so that a failed request leaves the data where it was.
+	blockSize, n, err := varint.Unpack64(c.Peek(10))
 	if err != nil {
 		return nil, err
 	}
-	if blockSize > uint64(c.Length()) {
+	if blockSize > uint64(c.Length()-n) {
 		return nil, errors.New("container: not enough data to return")
 	}
+	c.skip(n)
 	return c.Get(int(blockSize))
 }
 
 // GetNextBlockAsContainer returns the next block of data as a Container defined by a varint. Data will NOT be copied and IS consumed.
 func (c *Container) GetNextBlockAsContainer() (*Container, error) {
-	blockSize, err := c.GetNextN64()
+	// Only look at the length prefix: it is consumed together with the block,
+	// so that a failed request leaves the data where it was.
+	blockSize, n, err := varint.Unpack64(c.Peek(10))
 	if err != nil {
 		return nil, err
 	}
+	if blockSize > uint64(c.Length()-n) {
+		return nil, errors.New("container: not enough data to return")
+	}
+	c.skip(n)
 	return c.GetAsContainer(int(blockSize))
 }
 
